@@ -333,6 +333,13 @@ func (c *Client) push(e *Event) {
 	c.mu.Unlock()
 }
 
+// LogCopy returns everything the connection has received so far.
+func (c *Client) LogCopy() []*Event {
+	c.mu.Lock()
+	defer c.mu.Unlock()
+	return append([]*Event(nil), c.Log...)
+}
+
 func (c *Client) NextReqID() uint32 {
 	c.mu.Lock()
 	defer c.mu.Unlock()
